@@ -166,6 +166,17 @@ def wrapper_flaws(spec):
         yield "fine-wrapper-rename", "with_outputs to a fresh identifier", outer(rename_out=[{outs[0]: "renamed_ok"}]), True
         for bad in ("bad-name", "for", "a.b"):
             yield "illegal-output-name", f"nested-graph node output {outs[0]} -> {bad!r} via with_outputs", outer(rename_out=[{outs[0]: bad}]), False
+    # an ordering signal emitted INSIDE the nested graph is not produced by the wrapper node: waiting for it outside
+    # is a wait on a name nobody produces
+    fn0 = next((ns for ns in inner["nodes"] if ns["k"] == "fn"), None)
+    if fn0 is not None:
+        with_emit = copy.deepcopy(inner)
+        next(ns for ns in with_emit["nodes"] if ns["name"] == fn0["name"])["emit"] = list(fn0.get("emit", [])) + ["inner_sig"]
+        o2 = {"name": "outer", "nodes": [{"k": "sub", "name": "innerg", "prog": with_emit}, {"k": "fn", "name": "outside_waiter", "params": [{"n": "ow_in"}], "outs": ["ow_out"], "wait": ["inner_sig"]}], "bind": {}}
+        yield "wait-for-unproduced", "outer wait_for on a signal emitted inside a nested graph", o2, False
+        o3 = copy.deepcopy(o2)
+        o3["nodes"][1]["wait"] = []
+        yield "fine-wrapper-rename", "the same graph without the outer wait", o3, True
     yield "fine-wrapper-rename", "with_name to a hyphenated name", outer(rename_name="inner-g2"), True
     for bad in ("a.b", "a/b"):
         yield "illegal-node-name", f"nested-graph node renamed to {bad!r} via with_name", outer(rename_name=bad), False
